@@ -184,6 +184,7 @@ temporary_stack_initializer::temporary_stack_initializer(std::size_t initial_siz
 {
     if (!temp_stack)
         temp_stack = temporary_stack_list_obj.create(initial_size);
+    (void)&thread_exit_detector; // ODR-use it, also if the stack was taken over from a finished thread
     FOONATHAN_MEMORY_VERIF_POINT(10, temp_stack);
 }
 
@@ -203,6 +204,7 @@ temporary_stack& foonathan::memory::get_temporary_stack(std::size_t initial_size
 {
     if (!temp_stack)
         temp_stack = temporary_stack_list_obj.create(initial_size);
+    (void)&thread_exit_detector; // ODR-use it, also if the stack was taken over from a finished thread
     FOONATHAN_MEMORY_VERIF_POINT(10, temp_stack);
     return *temp_stack;
 }
